@@ -141,6 +141,8 @@ package runtimev2
 //@ params ctx fn
 //@ requires ctx != nil && fn != nil
 //@ modifies v2Frame
+// host-supplied functions leave the scope cursor where they found it
+//@ ensures ctx.stackCur == old(ctx.stackCur)
 
 // default-value thunks of parameter descriptions are pure
 //@ functype func() any
